@@ -6,15 +6,17 @@
 //	               op = (0 v) PushBack | (1 v) PushFront | (2) PopFront | (3) PopBack | (4) Front |
 //	                    (5) Back | (6 i) At | (7 i v) Set | (8) Clear | (9 n) Rotate
 //	               observed = (results (minCap buf))   result = (k v len cap head tail)
-//	               k: 0 nothing returned, 1 value v, 2 explicit panic, 3 run-time error
-//	(1 ops)        UnboundedQueue history.  op = (0 v) Push | (1) Pop | (2) Front | (3) Len
+//	               k: 0 nothing returned, 1 value v, 2 explicit panic, 3 run-time error or a call that
+//	               did not return within the time limit (then the rest of the history is not run and
+//	               is reported as (3 () -1 -1 -1 -1) too)
+//	(1 ops)        UnboundedQueue history.  op = (0 v) Push | (1) Pop | (2) Front | (3) Len | (4) Init
 //	               observed = ((maxFirst maxInternal) results (blocklens hp len last))
 //	               result = (k v hp len)   k: 0 nothing, 1 (v,true), 2 (nil,false), 3 int v, 4 run-time error
 //	(2 g sched)    UnboundedConcurrentQueue driven by g real goroutines under a forced schedule:
 //	               sched = ((tid code v) ...) with codes as in kind 1 (Enqueue/Dequeue/Peek/Len)
 //	               observed = as kind 1
 //	(3 P C n)      free-running stress: P producers enqueue p<<20|seq for seq < n; C consumers dequeue
-//	               concurrently; observed = ((consumer_1 values) ... (consumer_C values)) (remaining))
+//	               concurrently; observed = (((consumer_1 values) ... (consumer_C values)) (remaining) panics)
 //
 // a value is an integer or () for nil.
 package main
@@ -24,6 +26,8 @@ import (
 	"log"
 	"runtime"
 	"sync"
+	"sync/atomic"
+	"time"
 
 	"qchen.fun/fatchoy/collections/queue"
 	. "verifharness/common"
@@ -56,60 +60,106 @@ func catchKind(f func()) int64 {
 	return 2
 }
 
+// opTimeout bounds one deque call: a broken ring buffer can make Clear() spin for ever.
+var opTimeout = 2 * time.Second
+
+// hangs counts abandoned goroutines (each keeps a CPU busy): generation of deque histories stops
+// after a few of them.
+var hangs int
+
 func runDeque(in Sx) Sx {
 	ctor, ops := in.At(1), in.At(2)
-	var q *queue.Deque
-	if ctor.Len() == 0 {
-		q = new(queue.Deque)
-	} else {
-		q = queue.NewDeque(ctor.At(0).AsInt(), ctor.At(1).AsInt())
+	type fin struct {
+		mc  int
+		buf []interface{}
 	}
-	res := make([]Sx, 0, ops.Len())
-	for k := 0; k < ops.Len(); k++ {
-		op := ops.At(k)
-		var ret interface{}
-		has := false
-		pk := catchKind(func() {
-			switch op.At(0).AsInt() {
-			case 0:
-				q.PushBack(elem(op.At(1)))
-			case 1:
-				q.PushFront(elem(op.At(1)))
-			case 2:
-				ret, has = q.PopFront(), true
-			case 3:
-				ret, has = q.PopBack(), true
-			case 4:
-				ret, has = q.Front(), true
-			case 5:
-				ret, has = q.Back(), true
-			case 6:
-				ret, has = q.At(op.At(1).AsInt()), true
-			case 7:
-				q.Set(op.At(1).AsInt(), elem(op.At(2)))
-			case 8:
-				q.Clear()
-			case 9:
-				q.Rotate(op.At(1).AsInt())
-			default:
-				panic("bad opcode")
-			}
-		})
-		kd, v := int64(0), List()
-		if pk >= 0 {
-			kd = pk
-		} else if has {
-			kd, v = 1, val(ret)
+	results := make(chan Sx)
+	final := make(chan fin, 1)
+	go func() {
+		var q *queue.Deque
+		if ctor.Len() == 0 {
+			q = new(queue.Deque)
+		} else {
+			q = queue.NewDeque(ctor.At(0).AsInt(), ctor.At(1).AsInt())
 		}
-		h, t, _, _ := q.VerifProbe()
-		res = append(res, List(Int(kd), v, Int(int64(q.Len())), Int(int64(q.Cap())), Int(int64(h)), Int(int64(t))))
+		for k := 0; k < ops.Len(); k++ {
+			results <- dequeOp(q, ops.At(k))
+		}
+		_, _, mc, buf := q.VerifProbe()
+		final <- fin{mc, buf}
+	}()
+	res := make([]Sx, 0, ops.Len())
+	hung := false
+	timer := time.NewTimer(opTimeout)
+	defer timer.Stop()
+	for k := 0; k < ops.Len(); k++ {
+		if !hung {
+			if !timer.Stop() {
+				select {
+				case <-timer.C:
+				default:
+				}
+			}
+			timer.Reset(opTimeout)
+			select {
+			case r := <-results:
+				res = append(res, r)
+				continue
+			case <-timer.C:
+				hung = true // the goroutine is abandoned (it keeps spinning until the harness exits)
+				hangs++
+			}
+		}
+		res = append(res, List(Int(3), List(), Int(-1), Int(-1), Int(-1), Int(-1)))
 	}
-	_, _, mc, buf := q.VerifProbe()
-	bs := make([]Sx, len(buf))
-	for i, b := range buf {
+	if hung {
+		return List(ListOf(res), List(Int(-1), List()))
+	}
+	f := <-final
+	bs := make([]Sx, len(f.buf))
+	for i, b := range f.buf {
 		bs[i] = val(b)
 	}
-	return List(ListOf(res), List(Int(int64(mc)), ListOf(bs)))
+	return List(ListOf(res), List(Int(int64(f.mc)), ListOf(bs)))
+}
+
+func dequeOp(q *queue.Deque, op Sx) Sx {
+	var ret interface{}
+	has := false
+	pk := catchKind(func() {
+		switch op.At(0).AsInt() {
+		case 0:
+			q.PushBack(elem(op.At(1)))
+		case 1:
+			q.PushFront(elem(op.At(1)))
+		case 2:
+			ret, has = q.PopFront(), true
+		case 3:
+			ret, has = q.PopBack(), true
+		case 4:
+			ret, has = q.Front(), true
+		case 5:
+			ret, has = q.Back(), true
+		case 6:
+			ret, has = q.At(op.At(1).AsInt()), true
+		case 7:
+			q.Set(op.At(1).AsInt(), elem(op.At(2)))
+		case 8:
+			q.Clear()
+		case 9:
+			q.Rotate(op.At(1).AsInt())
+		default:
+			panic("bad opcode")
+		}
+	})
+	kd, v := int64(0), List()
+	if pk >= 0 {
+		kd = pk
+	} else if has {
+		kd, v = 1, val(ret)
+	}
+	h, t, _, _ := q.VerifProbe()
+	return List(Int(kd), v, Int(int64(q.Len())), Int(int64(q.Cap())), Int(int64(h)), Int(int64(t)))
 }
 
 // ---------------------------------------------------------------- unbounded
@@ -119,6 +169,7 @@ type fifo interface {
 	pop() (interface{}, bool)
 	front() (interface{}, bool)
 	length() int
+	init()
 	inner() *queue.UnboundedQueue
 }
 
@@ -128,6 +179,7 @@ func (p plainQ) push(v interface{})           { p.q.Push(v) }
 func (p plainQ) pop() (interface{}, bool)     { return p.q.Pop() }
 func (p plainQ) front() (interface{}, bool)   { return p.q.Front() }
 func (p plainQ) length() int                  { return p.q.Len() }
+func (p plainQ) init()                        { p.q.Init() }
 func (p plainQ) inner() *queue.UnboundedQueue { return p.q }
 
 type concQ struct {
@@ -138,6 +190,7 @@ func (p concQ) push(v interface{})           { p.q.Enqueue(v) }
 func (p concQ) pop() (interface{}, bool)     { return p.q.Dequeue() }
 func (p concQ) front() (interface{}, bool)   { return p.q.Peek() }
 func (p concQ) length() int                  { return p.q.Len() }
+func (p concQ) init()                        { panic("the concurrent queue has no Init") }
 func (p concQ) inner() *queue.UnboundedQueue { return p.q.VerifInner() }
 
 func fifoOp(q fifo, code int, arg Sx) Sx {
@@ -160,6 +213,8 @@ func fifoOp(q fifo, code int, arg Sx) Sx {
 			}
 		case 3:
 			kd, v = 3, Int(int64(q.length()))
+		case 4:
+			q.init()
 		default:
 			panic("bad opcode")
 		}
@@ -225,14 +280,27 @@ func runScheduled(in Sx) Sx {
 		}(cmds[i])
 	}
 	res := make([]Sx, 0, sched.Len())
+	hung := false
 	for k := 0; k < sched.Len(); k++ {
-		e := sched.At(k)
-		tid := e.At(0).AsInt()
-		if tid < 0 || tid >= g {
-			tid = 0
+		if !hung {
+			e := sched.At(k)
+			tid := e.At(0).AsInt()
+			if tid < 0 || tid >= g {
+				tid = 0
+			}
+			cmds[tid] <- cmd{e.At(1).AsInt(), e.At(2)}
+			select {
+			case r := <-done:
+				res = append(res, r)
+				continue
+			case <-time.After(opTimeout): // e.g. the mutex was left locked by a call that panicked
+				hung = true
+			}
 		}
-		cmds[tid] <- cmd{e.At(1).AsInt(), e.At(2)}
-		res = append(res, <-done)
+		res = append(res, List(Int(4), List(), Int(-1), Int(-1)))
+	}
+	if hung {
+		return List(Ints(0, 0), ListOf(res), List(List(), Int(-1), Int(-1), Int(-1)))
 	}
 	for _, c := range cmds {
 		close(c)
@@ -247,6 +315,19 @@ func runStress(in Sx) Sx {
 	if P < 1 || P > 64 || C < 1 || C > 64 || n < 0 || n > 1<<19 {
 		return List()
 	}
+	res := make(chan Sx, 1)
+	go func() { res <- stress(P, C, n) }()
+	select {
+	case r := <-res:
+		return r
+	case <-time.After(20 * time.Second): // dead-lock (e.g. a panic left the mutex locked)
+		return List(List(), List(), Int(-1))
+	}
+}
+
+// observed = (consumers remaining panics): panics = number of calls that ended in a run-time panic,
+// -1 = the scenario did not finish
+func stress(P, C, n int) Sx {
 	q := queue.NewUnboundedConcurrentQueue()
 	total := P * n
 	// consumers together take about three quarters of what is produced
@@ -258,6 +339,7 @@ func runStress(in Sx) Sx {
 	}
 	got := make([][]Sx, C)
 	var wg sync.WaitGroup
+	var panics int64
 	start := make(chan struct{})
 	for p := 0; p < P; p++ {
 		wg.Add(1)
@@ -265,7 +347,10 @@ func runStress(in Sx) Sx {
 			defer wg.Done()
 			<-start
 			for s := 0; s < n; s++ {
-				q.Enqueue(p<<20 | s)
+				if pk, _ := Catch(func() { q.Enqueue(p<<20 | s) }); pk {
+					atomic.AddInt64(&panics, 1)
+					return
+				}
 				if s%7 == p%7 {
 					runtime.Gosched()
 				}
@@ -277,10 +362,18 @@ func runStress(in Sx) Sx {
 		go func(c int) {
 			defer wg.Done()
 			<-start
-			for len(got[c]) < quota[c] {
-				if v, ok := q.Dequeue(); ok {
+			spins := 0
+			for len(got[c]) < quota[c] && spins < 50000000 {
+				var v interface{}
+				var ok bool
+				if pk, _ := Catch(func() { v, ok = q.Dequeue() }); pk {
+					atomic.AddInt64(&panics, 1)
+					return
+				}
+				if ok {
 					got[c] = append(got[c], val(v))
 				} else {
+					spins++
 					runtime.Gosched()
 				}
 			}
@@ -289,8 +382,13 @@ func runStress(in Sx) Sx {
 	close(start)
 	wg.Wait()
 	var rest []Sx
-	for {
-		v, ok := q.Dequeue()
+	for len(rest) <= total {
+		var v interface{}
+		var ok bool
+		if pk, _ := Catch(func() { v, ok = q.Dequeue() }); pk {
+			panics++
+			break
+		}
 		if !ok {
 			break
 		}
@@ -300,7 +398,7 @@ func runStress(in Sx) Sx {
 	for c := range cs {
 		cs[c] = ListOf(got[c])
 	}
-	return List(ListOf(cs), ListOf(rest))
+	return List(ListOf(cs), ListOf(rest), Int(panics))
 }
 
 func run(in Sx) Sx {
@@ -419,6 +517,32 @@ func (g *dgen) misc() {
 	}
 }
 
+// read every element back
+func (g *dgen) readAll() {
+	for i := 0; i < g.n && i < 48; i++ {
+		g.add(List(Int(6), Int(int64(i))))
+	}
+}
+
+// a few pushes, a pop or two, a few more pushes, then read everything back: on a buffer much
+// larger than its contents (sized constructor, or after Clear) this is where a wrong shrink shows
+func (g *dgen) fewOps() {
+	r := g.rng
+	for k := 1 + r.Intn(9); k > 0; k-- {
+		g.pushAt(r.Intn(2))
+	}
+	for k := 1 + r.Intn(2); k > 0; k-- {
+		g.popAt(r.Intn(2))
+	}
+	for k := r.Intn(24); k > 0; k-- {
+		g.pushAt(r.Intn(2))
+		if r.Chance(1, 8) {
+			g.popAt(r.Intn(2))
+		}
+	}
+	g.readAll()
+}
+
 // walk the length to target, sprinkling reads/rotations on the way
 func (g *dgen) walk(target, density int) {
 	for g.n != target && len(g.ops) < 1500 {
@@ -455,7 +579,10 @@ func genDeque(rng *Rng, thorough bool) (string, Sx) {
 	default:
 		ctor, kind = Ints(int64(rng.Intn(300))-20, int64(rng.Intn(200))-20), "deque-new"
 	}
-	// a few invalid reads on the empty deque
+	if rng.Chance(1, 3) {
+		g.fewOps()
+	}
+	// a few invalid reads on the (possibly) empty deque
 	for k := rng.Intn(3); k > 0; k-- {
 		if rng.Bool() {
 			g.pop()
@@ -507,6 +634,11 @@ func genDeque(rng *Rng, thorough bool) (string, Sx) {
 		for k := rng.Intn(4); k > 0; k-- {
 			g.misc()
 		}
+		if rng.Chance(1, 5) { // Clear keeps the capacity: a nearly empty big buffer
+			g.add(List(Int(8)))
+			g.n = 0
+			g.fewOps()
+		}
 	}
 	// drain through the shrink points now and then
 	if rng.Bool() {
@@ -515,6 +647,53 @@ func genDeque(rng *Rng, thorough bool) (string, Sx) {
 		g.misc()
 	}
 	return kind, List(Int(0), ctor, ListOf(g.ops))
+}
+
+func genDequeSmall(rng *Rng) (string, Sx) {
+	g := &dgen{rng: rng}
+	ctor := List()
+	kind := "deque-small"
+	switch rng.Intn(4) {
+	case 0:
+		ctor = Ints(int64(rng.PickInt(17, 64, 100)), int64(rng.PickInt(0, 16, 32)))
+	case 1:
+		ctor = Ints(0, int64(rng.PickInt(0, 64)))
+	}
+	for k := 2 + rng.Intn(10); k > 0; k-- {
+		switch rng.Intn(6) {
+		case 0, 1, 2:
+			g.push()
+		case 3:
+			g.pop()
+		default:
+			g.misc()
+		}
+	}
+	g.readAll()
+	return kind, List(Int(0), ctor, ListOf(g.ops))
+}
+
+// short queue histories with Init() at arbitrary head positions
+func genFifoSmall(rng *Rng) []Sx {
+	var ops []Sx
+	next := int64(0)
+	for k := 2 + rng.Intn(14); k > 0; k-- {
+		switch rng.Intn(9) {
+		case 0, 1, 2, 3:
+			next++
+			ops = append(ops, List(Int(0), Int(next)))
+		case 4, 5:
+			ops = append(ops, List(Int(1)))
+		case 6:
+			ops = append(ops, List(Int(2)))
+		case 7:
+			ops = append(ops, List(Int(3)))
+		default:
+			ops = append(ops, List(Int(4)))
+		}
+	}
+	ops = append(ops, List(Int(2)), List(Int(1)), List(Int(3)))
+	return ops
 }
 
 func genFifoOps(rng *Rng, tids int) []Sx {
@@ -571,6 +750,19 @@ func genFifoOps(rng *Rng, tids int) []Sx {
 				}
 			}
 		}
+		if tids == 0 && rng.Chance(1, 3) { // Init() with the head index anywhere, then re-use
+			for k := rng.Intn(20); k > 0 && n > 0; k-- {
+				pop()
+			}
+			ops = append(ops, List(Int(4)))
+			n = 0
+			for k := 1 + rng.Intn(30); k > 0; k-- {
+				push()
+			}
+			mk(2, List())
+			pop()
+			mk(3, List())
+		}
 		if rng.Chance(1, 3) { // empty it completely and poke the empty queue
 			for n > 0 {
 				pop()
@@ -601,13 +793,24 @@ func nontrivialDeque(obs Sx) bool {
 
 func gen(a Args, out *Out) {
 	rng := NewRng(a.Seed)
-	nd, nu, ns, nx := 420, 120, 60, 12
+	nd, nu, ns, nx := 300, 100, 50, 24
+	nsmall := 400
 	if a.Thorough() {
-		nd, nu, ns, nx = 8000, 2000, 800, 60
+		nd, nu, ns, nx, nsmall = 6000, 2000, 800, 60, 8000
 	}
 	rd := rng.Fork()
-	for k := 0; k < nd; k++ {
-		kind, in := genDeque(rd, a.Thorough())
+	for k := 0; k < nd+nsmall; k++ {
+		if hangs >= 6 {
+			out.Note("deque generation stopped after %d calls that did not return", hangs)
+			break
+		}
+		var kind string
+		var in Sx
+		if k < nsmall {
+			kind, in = genDequeSmall(rd)
+		} else {
+			kind, in = genDeque(rd, a.Thorough())
+		}
 		obs := run(in)
 		out.Case(kind, nontrivialDeque(obs), in, obs)
 		res := obs.At(0)
@@ -619,7 +822,7 @@ func gen(a Args, out *Out) {
 			case 2:
 				out.Count("deque:explicit-panics")
 			case 3:
-				out.Count("deque:runtime-errors")
+				out.Count("deque:runtime-errors-or-hangs")
 			}
 			if c := r.At(3).Int64(); !seen[c] {
 				seen[c] = true
@@ -632,11 +835,25 @@ func gen(a Args, out *Out) {
 		}
 	}
 	ru := rng.Fork()
-	for k := 0; k < nu; k++ {
-		in := List(Int(1), ListOf(genFifoOps(ru, 0)))
+	for k := 0; k < nu+nsmall/2; k++ {
+		kind := "unbounded"
+		var in Sx
+		if k < nsmall/2 {
+			kind, in = "unbounded-small", List(Int(1), ListOf(genFifoSmall(ru)))
+		} else {
+			in = List(Int(1), ListOf(genFifoOps(ru, 0)))
+		}
 		obs := run(in)
 		bl := obs.At(2).At(0)
-		out.Case("unbounded", in.At(1).Len() > 17, in, obs)
+		for i := 0; i < in.At(1).Len(); i++ {
+			if in.At(1).At(i).At(0).AsInt() == 4 {
+				out.Count("unbounded:Init-calls")
+				if i > 0 && obs.At(1).At(i-1).At(2).Int64() > 0 {
+					out.Count("unbounded:Init-with-head-index>0")
+				}
+			}
+		}
+		out.Case(kind, in.At(1).Len() > 17, in, obs)
 		out.CountN("unbounded:ops", in.At(1).Len())
 		out.Count("unbounded:final-blocks:" + Int(int64(bl.Len())).String())
 	}
@@ -652,7 +869,7 @@ func gen(a Args, out *Out) {
 	rx := rng.Fork()
 	for k := 0; k < nx; k++ {
 		P, C := 1+rx.Intn(4), 1+rx.Intn(4)
-		n := rx.PickInt(1, 16, 17, 40, 150, 300)
+		n := rx.PickInt(1, 16, 17, 40, 150, 300, 1000)
 		if a.Thorough() && rx.Chance(1, 4) {
 			n = 2000
 		}
